@@ -204,44 +204,51 @@ def rule_tuples_shape(repo, rep):
 
 
 def rule_label_alphabet(repo, rep):
-  R = 'R-FORM:pair-label-alphabet'
-  rep.rule(R, 'check_y_valid_values_for_pairs raises ValueError unless '
-           '|y| == 1 element-wise, tested on the labels as given (no cast '
-           'that could map other values onto +-1)')
+  R = 'R-INTERP:pair-label-alphabet'
+  rep.rule(R, 'check_y_valid_values_for_pairs, interpreted on concrete label '
+           'vectors (all +-1; containing 0, 2, 3, -2, 1/2, 3/2, -3/2 at any '
+           'position; length 1..4), raises ValueError exactly when some '
+           '|y_i| != 1 (a cast that maps 3/2 onto 1 is visible as an accepted '
+           'invalid vector)')
+  from ..minterp import Interp, World, Arr, Undecided
+  from fractions import Fraction as F
   f = repo.get_func('_util.check_y_valid_values_for_pairs')
+  if f is None or not f.params():
+    rep.unknown(R, '_util.check_y_valid_values_for_pairs', '',
+                'function vanished')
+    return
+  rep.analysed(f)
   y = f.params()[0]
-  rebinds = [n for n in ast.walk(f.node) if isinstance(n, ast.Assign) and
-             any(isinstance(t, ast.Name) and t.id == y for t in n.targets)]
-  for rb in rebinds:
-    txt = ast.unparse(rb.value)
-    if txt in ('np.asarray(%s)' % y, 'np.asanyarray(%s)' % y,
-               'np.array(%s)' % y, 'np.ravel(%s)' % y):
-      continue
-    rep.refuted(R, '_util.check_y_valid_values_for_pairs:rebind',
-                site(f, rb), 'the labels are transformed before the test '
-                '(%s = %s): values other than +-1 can pass' % (y, txt))
-  tests = [n for n in ast.walk(f.node) if isinstance(n, ast.If)]
-  ok = False
-  for t in tests:
-    if any(isinstance(x, ast.Raise) for x in t.body):
-      txt = ast.unparse(t.test)
-      if txt in ('not np.array_equal(np.abs(%s), np.ones_like(%s))' % (y, y),
-                 'not np.all(np.abs(%s) == 1)' % y,
-                 'not (np.abs(%s) == 1).all()' % y,
-                 'np.any(np.abs(%s) != 1)' % y,
-                 '(np.abs(%s) != 1).any()' % y,
-                 'not np.isin(%s, [-1, 1]).all()' % y,
-                 'not np.all(np.isin(%s, [-1, 1]))' % y):
-        ok = True
-      else:
-        rep.unknown(R, '_util.check_y_valid_values_for_pairs:test',
-                    site(f, t), 'label test %s not in the table' % txt)
-        return
-  if ok and not rebinds:
-    rep.derived(R, '_util.check_y_valid_values_for_pairs', site(f))
-  elif not ok:
-    rep.refuted(R, '_util.check_y_valid_values_for_pairs', site(f),
-                'no test rejecting labels outside {-1, +1}')
+  good = [[1], [-1], [1, -1], [-1, -1, 1], [1, 1, 1, 1], [-1, 1, -1, 1]]
+  bad = []
+  for v in (0, 2, 3, -2, F(1, 2), F(3, 2), F(-3, 2), F(-1, 2)):
+    bad += [[v], [1, v], [v, -1], [1, -1, v], [-1, v, 1, 1]]
+  n = 0
+  for ys, want_raise in [(g, False) for g in good] + [(b_, True) for b_ in bad]:
+    try:
+      out = Interp(repo, f, World()).run({y: Arr(ys)})
+    except Undecided as u:
+      rep.unknown(R, '_util.check_y_valid_values_for_pairs:test', site(f),
+                  '%s (labels %s)' % (u, ys))
+      return
+    n += 1
+    if want_raise and out[0] != 'raise':
+      rep.refuted(R, '_util.check_y_valid_values_for_pairs:accepts-invalid',
+                  site(f), 'the labels %s are accepted' % (
+                      [str(x) for x in ys],))
+      return
+    if want_raise and 'ValueError' not in out[1]:
+      rep.refuted(R, '_util.check_y_valid_values_for_pairs:exception',
+                  site(f, out[2]), 'raises %s, not ValueError, for the '
+                  'labels %s' % (out[1][0], [str(x) for x in ys]))
+      return
+    if not want_raise and out[0] == 'raise':
+      rep.refuted(R, '_util.check_y_valid_values_for_pairs:rejects-valid',
+                  site(f, out[2]), 'the valid labels %s are rejected' % ys)
+      return
+  rep.derived(R, '_util.check_y_valid_values_for_pairs', site(f),
+              sample=dict(rule=R, vectors=n))
+  rep.floor('label vectors interpreted', n, 40)
 
 
 def rule_n_components(repo, rep):
@@ -357,6 +364,10 @@ _KEEP_FUNCS = set(_canon(x) for x in (
     'numpy.multiply', 'numpy.add', 'numpy.subtract', 'numpy.negative',
     'numpy.max', 'numpy.min', 'numpy.amax', 'numpy.amin', 'numpy.copy',
     'numpy.squeeze', 'numpy.reshape', 'numpy.triu', 'numpy.tril'))
+_ARITH_FUNCS = set(_canon(x) for x in (
+    'numpy.square', 'numpy.dot', 'numpy.matmul', 'numpy.einsum', 'numpy.outer',
+    'numpy.multiply', 'numpy.add', 'numpy.subtract', 'numpy.negative',
+    'numpy.cumsum'))
 _KEEP_METHODS = {'dot', 'sum', 'max', 'min', 'copy', 'ravel', 'reshape',
                  'flatten', 'squeeze', 'transpose', 'cumsum', 'take', 'repeat',
                  'swapaxes', 'prod', 'round', 'clip'}
@@ -367,10 +378,26 @@ class IntDomain(TagDomain):
   """'mayint': array whose dtype follows the (possibly integer) user data;
   'float': certainly floating point."""
 
-  def __init__(self, hyper_float):
+  def __init__(self, hyper_float, data_float=False):
     super().__init__()
     self.hyper_float = hyper_float
+    # does the central validator hand out floating-point data for integer
+    # input (decided by c06b.validated_dtype on the validator itself)?
+    self.data_float = data_float
     self.problems = []
+    self.arith = []       # arithmetic carried out in the data's integer dtype
+
+  def _is_lab(self, v):
+    return 'lab' in (v.d or _E)
+
+  def _int_arith(self, what, operands, node):
+    """all array operands have the (possibly unsigned / narrow) integer dtype
+    of the user's data and none is a label vector: the result is computed in
+    that dtype"""
+    ks = [self._cls(v) for v in operands]
+    if 'mayint' in ks and all(k in ('mayint', 'int') for k in ks) and \
+            not any(self._is_lab(v) for v in operands):
+      self.arith.append((what, self.site(node), self.cur()))
 
   def flow(self, tags):
     return _E
@@ -395,7 +422,8 @@ class IntDomain(TagDomain):
     if 'float' in ks:
       return frozenset(['float'])
     if ks and all(k in ('mayint', 'int') for k in ks) and 'mayint' in ks:
-      return frozenset(['mayint'])
+      return frozenset(['mayint', 'lab']) if any(
+          self._is_lab(v) for v in vals) else frozenset(['mayint'])
     return _E
 
   def param(self, func, name, index):
@@ -408,18 +436,22 @@ class IntDomain(TagDomain):
         else frozenset(['hp'])
 
   def summary(self, target, args, kwargs, node, st):
-    if target.name == '_prepare_inputs' and target.cls is not None:
+    is_prep = target.name == '_prepare_inputs' and target.cls is not None
+    if is_prep or target.key == '_util.check_input':
       dt = kwargs.get('dtype')
       flt = dt is not None and ((dt.fn and dt.fn[0] == 'ext' and
                                  dt.fn[1] in ('builtins.float',
                                               'numpy.float64')) or
                                 dt.const() in ('float', 'float64'))
+      if dt is None and self.data_float:
+        flt = True          # the validator's default: see validated_dtype
       tag = frozenset(['float' if flt else 'mayint'])
-      y = args[2] if len(args) > 2 else kwargs.get('y')
+      y = (args[2] if len(args) > 2 else kwargs.get('y')) if is_prep else \
+          (args[1] if len(args) > 1 else kwargs.get('y'))
       x = V(tag, ty='ndarray')
       if y is None or (y.c is not NOCONST and y.const() is None):
         return x
-      return V(_E, elts=(x, V(frozenset(['mayint']), ty='ndarray')))
+      return V(_E, elts=(x, V(frozenset(['mayint', 'lab']), ty='ndarray')))
     return None
 
   def binop(self, op, l, r, node, st):
@@ -429,13 +461,21 @@ class IntDomain(TagDomain):
       k = self._cls(r)
       if k == 'float':
         return frozenset(['float'])
+      if k == 'int':
+        self._int_arith('power', [l], node)
       return self._combine(l) if k == 'int' else _E
     if isinstance(op, (ast.Add, ast.Sub, ast.Mult, ast.MatMult, ast.FloorDiv,
                        ast.Mod)):
+      if isinstance(op, (ast.Add, ast.Sub, ast.Mult, ast.MatMult)):
+        self._int_arith({ast.Add: 'sum', ast.Sub: 'difference',
+                         ast.Mult: 'product', ast.MatMult: 'matrix product'}
+                        [type(op)], [l, r], node)
       return self._combine(l, r)
     return _E
 
   def unop(self, op, v, node, st):
+    if isinstance(op, ast.USub):
+      self._int_arith('negation', [v], node)
     return self._combine(v) if isinstance(op, (ast.USub, ast.UAdd)) else _E
 
   def compare(self, ops, vals, node, st):
@@ -467,7 +507,8 @@ class IntDomain(TagDomain):
               'builtins.float', 'numpy.float64')) or \
               dt.const() in ('float', 'float64'):
         return frozenset(['float'])
-      return _E
+      if not (dt.c is not NOCONST and dt.const() is None):
+        return _E
     out = kwargs.get('out')
     if out is not None and self._cls(out) == 'mayint' and dotted in (
             _canon('numpy.divide'), _canon('numpy.true_divide'),
@@ -489,6 +530,8 @@ class IntDomain(TagDomain):
       arrs = [a for a in args if a.d or a.const() is not NOCONST]
       # einsum: first argument is the subscript string
       arrs = [a for a in args if not isinstance(a.const(), str)]
+      if dotted in _ARITH_FUNCS and arrs:
+        self._int_arith(dotted.rsplit('.', 1)[-1], arrs, node)
       return self._combine(*arrs) if arrs else _E
     return _E
 
@@ -510,6 +553,10 @@ class IntDomain(TagDomain):
     if name in _FLOAT_METHODS:
       return frozenset(['float'])
     if name in _KEEP_METHODS:
+      if name == 'dot' and args:
+        self._int_arith('dot', [recv, args[0]], node)
+      elif name in ('prod', 'cumsum'):
+        self._int_arith(name, [recv], node)
       return self._combine(recv, *args) if name == 'dot' else \
           self._combine(recv)
     return _E
@@ -534,6 +581,9 @@ class IntDomain(TagDomain):
         self.problems.append(('in-place %s with a floating-point operand'
                               % type(op).__name__, self.site(node),
                               self.cur()))
+      elif isinstance(op, (ast.Add, ast.Sub, ast.Mult, ast.MatMult)):
+        self._int_arith('in-place %s' % type(op).__name__, [target, val],
+                        node)
       return target.d
     if kind in ('name', 'attr'):
       return self.binop(op, target, val, node, st)
@@ -580,6 +630,80 @@ def rule_int_safe(repo, rep, only=None):
             17 if only is None else len(only))
 
 
+def rule_int_arith(repo, rep, methods=None, closure=True):
+  """Use-site half of "integer arrays holding the same numbers give the same
+  results": no difference / product / power is computed in the integer dtype
+  of the user's data.  The source half - which dtype the central validator
+  hands out for integer input - is decided by interpretation
+  (c06b.validated_dtype) and feeds the summaries of check_input /
+  _prepare_inputs."""
+  from . import c06b
+  from .common import DATA_METHODS
+  R = 'DTYPE:no-arithmetic-in-the-integer-dtype-of-the-data'
+  rep.rule(R, 'for every data-taking method (and the function returned by '
+           'get_metric) no sum, difference, product, power or matrix product '
+           'has only operands whose dtype follows the user\'s integer data: '
+           'numpy computes it in that dtype, so unsigned data wraps around in '
+           'differences (3 - 5 = 254 in uint8) and narrow dtypes overflow in '
+           'products; the dtype returned by check_input for integer input '
+           'with default options is decided by interpreting the validator')
+  fact, why = c06b.validated_dtype(repo)
+  fchk = repo.get_func('_util.check_input')
+  key0 = '_util.check_input:dtype-of-validated-integer-data'
+  if fact == 'unknown':
+    rep.unknown(R, key0, site(fchk) if fchk else '', why)
+  else:
+    rep.derived(R, key0, site(fchk), sample=dict(rule=R, fact=fact, why=why))
+  methods = list(methods) if methods is not None else list(DATA_METHODS)
+  found = {}
+  n = 0
+  for c in repo.estimators():
+    init = repo.resolve_method(c, '__init__')
+    hf = set()
+    if isinstance(init, FuncInfo):
+      for p, d in init.defaults().items():
+        if isinstance(d, ast.Constant) and isinstance(d.value, float):
+          hf.add(p)
+    for m in methods + (['get_metric'] if closure else []):
+      f = repo.resolve_method(c, m)
+      if not isinstance(f, FuncInfo):
+        continue
+      # an undecided validator gives an inconclusive verdict above, never a
+      # refutation of the use sites
+      dom = IntDomain(hf, data_float=(fact != 'int'))
+      eng = Engine(repo, dom, self_cls=c)
+      flow = eng.run(f)
+      if m == 'get_metric':
+        for (v, st, nd) in flow.returns:
+          if v.fn is None:
+            continue
+          eng._pending_raises = []
+          eng._dead = False
+          u = V(frozenset(['hp']))
+          w = V(frozenset(['hp']))
+          eng.call_value(v, [u, w], {}, f.node, st.copy(), f, want_flow=True)
+      n += 1
+      for (what, s_, fn) in dom.arith:
+        k = (fn.key if fn else f.key, what, s_)
+        found.setdefault(k, []).append('%s.%s' % (c.name, m))
+  rep.floor('(estimator, method) entry points analysed for arithmetic in '
+            'the data dtype', n, 100 if methods == list(DATA_METHODS) else 1)
+  by_func = {}
+  for (fk, what, s_), users in found.items():
+    by_func.setdefault(fk, []).append((what, s_, users))
+  for fk, items in sorted(by_func.items()):
+    items.sort(key=lambda x: x[1])
+    what, s_, users = items[0]
+    rep.refuted(R, '%s:integer-arithmetic' % fk, s_,
+                '%s computed in the integer dtype of the user\'s data '
+                '(%d such operation(s) in this function; reached from %s): '
+                'unsigned data wraps around, narrow dtypes overflow - %s'
+                % (what, len(items), ', '.join(sorted(set(
+                    u for it in items for u in it[2]))[:4]), why))
+  if not by_func:
+    rep.derived(R, 'all-data-methods', '', sample=dict(rule=R, entry_points=n))
+
+
 def check(repo, rep, tier):
   rule_taint(repo, rep)
   rule_validators(repo, rep)
@@ -590,6 +714,7 @@ def check(repo, rep, tier):
   from . import c05
   api.run_rule(repo, rep)
   rule_int_safe(repo, rep)
+  rule_int_arith(repo, rep)
   from . import c06b
   c06b.rule_validation_table(repo, rep)
   c06b.rule_validate_vector(repo, rep)
